@@ -2,8 +2,9 @@
    Print Assumptions only. The pins in tools/pins/C10.v re-check the statements. *)
 From Coq Require Import List NArith ZArith Bool Sorted Permutation.
 From V.gen Require Consts DialErrors.
-From V.C10 Require Import Model Proofs.
-From V.C10 Require ErrNames.
+From V.C10 Require Import Model IpClass Proofs.
+From V.C10 Require ErrNames KadStore.
+From V.C14 Require AddrModel.
 Import ListNotations.
 
 (* Bound: in every reachable book (any configuration, any capacity, any history of additions,
@@ -258,25 +259,26 @@ Proof. exact addresses_ok_complete. Qed.
 Print Assumptions C10_dial_order_validator_complete.
 
 (* dial(peer) end to end: when the model accepts the address lists that the implementation
-   handed to the open() of its TCP and WebSocket transports, then the peer is not the local
+   handed to the open() of its TCP, WebSocket and QUIC transports, then the peer is not the local
    one, there was free outbound capacity `limit` (max_outgoing_connections minus the established
-   outbound connections, or everything when unlimited), the two lists merged by score are a
+   outbound connections, or everything when unlimited), the three lists merged by score are a
    valid addresses(limit) selection of the peer's store (see C10_dial_order_validator_sound),
    every address went to the installed transport it is routed to and names the peer, and the
    store afterwards is the recorded outcome. *)
 Theorem C10_dial_tries :
-  forall c k st peer outcome errs tcp ws t w st',
-  step c k st (ODial peer outcome errs tcp ws) = (st', RDial (DTried t w)) ->
+  forall c k st peer outcome errs tcp ws qu t w q st',
+  step c k st (ODial peer outcome errs tcp ws qu) = (st', RDial (DTried t w q)) ->
   let s := get_or_empty peer (bk st) in
   exists limit,
     free_capacity c st (length s) = Some limit /\
     peer <> local_peer c /\
-    t = with_scores s tcp /\ w = with_scores s ws /\
-    addresses_ok limit s (merge_desc t w) = true /\
-    Permutation (merge_desc t w) (t ++ w) /\
+    t = with_scores s tcp /\ w = with_scores s ws /\ q = with_scores s qu /\
+    addresses_ok limit s (merge_desc (merge_desc t w) q) = true /\
+    Permutation (merge_desc (merge_desc t w) q) (t ++ w ++ q) /\
     Forall (fun a => In a (keys s) /\ names peer a = true /\ route c a = TTcp /\ enabled c TTcp = true) tcp /\
     Forall (fun a => In a (keys s) /\ names peer a = true /\ route c a = TWs /\ enabled c TWs = true) ws /\
-    st' = set_bk st (put peer (dial_outcome k s peer outcome errs tcp ws) (bk st)).
+    Forall (fun a => In a (keys s) /\ names peer a = true /\ route c a = TQuic /\ enabled c TQuic = true) qu /\
+    st' = set_bk st (put peer (dial_outcome k s peer outcome errs tcp ws qu) (bk st)).
 Proof. exact step_dial_tried. Qed.
 Print Assumptions C10_dial_tries.
 
@@ -293,11 +295,12 @@ Print Assumptions C10_free_capacity.
 (* All attempts of a dial fail, attempt i with error kind errs[i mod |errs|]: exactly the tried
    addresses are re-scored, each to the score of the error kind its attempt failed with. *)
 Theorem C10_dial_all_fail :
-  forall k s peer errs tcp ws b,
-  NoDup (keys s) -> NoDup (tcp ++ ws) -> (forall a, In a (tcp ++ ws) -> In a (keys s)) ->
+  forall k s peer errs tcp ws qu b,
+  NoDup (keys s) -> NoDup (tcp ++ ws ++ qu) -> (forall a, In a (tcp ++ ws ++ qu) -> In a (keys s)) ->
   (forall e, error_score k e <> 0%Z) ->
-  find b (dial_outcome k s peer 0 errs tcp ws) =
-    match lookup_err b (tag_errs errs 0 tcp ++ tag_errs errs (length tcp) ws) with
+  find b (dial_outcome k s peer 0 errs tcp ws qu) =
+    match lookup_err b (tag_errs errs 0 tcp ++ tag_errs errs (length tcp) ws ++
+                        tag_errs errs (length tcp + length ws) qu) with
     | Some e => Some (error_score k e)
     | None => find b s
     end.
@@ -470,6 +473,113 @@ Theorem C10_scores_in_i32 :
 Proof. exact final_scores_i32. Qed.
 Print Assumptions C10_scores_in_i32.
 
+(* ---------- concrete IP addresses ---------- *)
+
+(* The four address classes of the model lose nothing: for a concrete IPv4 / IPv6 address the
+   three predicates the code evaluates - std's is_unspecified and is_loopback, ip_network's
+   is_global (transcribed range by range in IpClass.v) - are functions of its class; in particular
+   an unspecified or loopback address is never global. *)
+Theorem C10_ip_classes_exact :
+  (forall ip, is_unspec (classify4 ip) = v4_unspecified ip /\ is_loop (classify4 ip) = v4_loopback ip /\
+              is_glob (classify4 ip) = v4_global ip) /\
+  (forall ip, is_unspec (classify6 ip) = v6_unspecified ip /\ is_loop (classify6 ip) = v6_loopback ip /\
+              is_glob (classify6 ip) = v6_global ip).
+Proof. split; [exact classify4_exact | exact classify6_exact]. Qed.
+Print Assumptions C10_ip_classes_exact.
+
+(* ... so what the model computes on an address that starts with a concrete IP is what the code
+   computes: supported_transport refuses exactly the unspecified addresses, the public-address
+   bonus goes exactly to the addresses ip_network calls global, and is_local_address compares
+   sockets as the code does (same IP; unspecified listener and loopback address; two loopback
+   addresses - IPv4 and IPv6 alike). *)
+Theorem C10_ip_predicates_concrete :
+  (forall ip, first_ok (comp_of_ip4 ip) = negb (v4_unspecified ip)) /\
+  (forall ip, first_ok (comp_of_ip6 ip) = negb (v6_unspecified ip)) /\
+  (forall ip rest, is_global (comp_of_ip4 ip :: rest) = v4_global ip) /\
+  (forall ip rest, is_global (comp_of_ip6 ip :: rest) = v6_global ip) /\
+  (forall v a port w l lport rest,
+     local_match (ipaddr_of v a) port (ip_comp w l :: Tcp lport :: rest) =
+       N.eqb port lport &&
+       ((Bool.eqb w v && N.eqb l a) ||
+        (conc_unspecified w l && conc_loopback v a) ||
+        (conc_loopback w l && conc_loopback v a))).
+Proof.
+  repeat split; [exact first_ok_ip4 | exact first_ok_ip6 | exact is_global_ip4 | exact is_global_ip6
+                | exact local_match_conc].
+Qed.
+Print Assumptions C10_ip_predicates_concrete.
+
+(* The ranges the correspondence run maps the abstract (class, id) pairs to - 0.0.0.0, 127.1/16,
+   10.7/16, 8.8/16, ::, ::1, fd00::7:x, 2001:4860::x - have the class they stand for. *)
+Theorem C10_mapped_ranges :
+  forall c id, (id < 65536)%N -> classify4 (mapped4 c id) = c /\ classify6 (mapped6 c id) = c.
+Proof. intros c id H. split; [exact (mapped4_class c id H) | exact (mapped6_class c id H)]. Qed.
+Print Assumptions C10_mapped_ranges.
+
+(* The special ranges were transcribed from ip_network 0.4.1; Cargo.lock still names that version. *)
+Theorem C10_ip_network_version : DialErrors.ip_network_version = ErrNames.ip_network_0_4_1.
+Proof. exact ErrNames.ip_network_version_pinned. Qed.
+Print Assumptions C10_ip_network_version.
+
+(* ---------- the address stores inside the Kademlia routing table (C14) ---------- *)
+
+(* coq/C14/AddrModel.v models KademliaPeer.address_store - the same AddressStore type - over
+   abstract addresses. Its addresses embed injectively into the multiaddress grammar of this model,
+   preserving "global" and AddressRecord::new's "append the peer id unless there is one" ... *)
+Theorem C10_kad_embedding :
+  forall p,
+    (forall a b, KadStore.emb p a = KadStore.emb p b -> a = b) /\
+    (forall a, is_global (KadStore.emb p a) = AddrModel.is_global a) /\
+    (forall a, with_peer p (KadStore.emb p a) = KadStore.emb p (AddrModel.with_p2p a)).
+Proof.
+  intro p. split; [exact (KadStore.emb_inj p)|]. split; [exact (KadStore.emb_global p) | exact (KadStore.emb_with_peer p)].
+Qed.
+Print Assumptions C10_kad_embedding.
+
+(* ... and C14's insert is the image of this model's insert under the embedding, with the
+   constants of address.rs, for every capacity, store, address, victim choice and every score whose
+   sum with the public bonus is an i32 (C14 writes the bonus without saturation; it uses the scores
+   0 and +-100 only): the routing table's stores are instances of the store of C10 ... *)
+Theorem C10_kad_store_is_instance :
+  forall p n s a sc v,
+    (I32_MIN <= sc + AddrModel.S_BONUS <= I32_MAX)%Z ->
+    insert (KadStore.kad_scores n) (KadStore.emb_store p s) (KadStore.emb p a) sc (option_map (KadStore.emb p) v) =
+      (KadStore.emb_store p (fst (AddrModel.sinsert n s a sc v)),
+       KadStore.emb_res p (snd (AddrModel.sinsert n s a sc v))).
+Proof. exact KadStore.sinsert_sim. Qed.
+Print Assumptions C10_kad_store_is_instance.
+
+(* ... with the capacity and constants C14 reads from address.rs this is default_scores, and the
+   lists KademliaPeer::addresses() reports are the image of addresses(limit). *)
+Theorem C10_kad_addresses_is_instance :
+  KadStore.kad_scores AddrModel.CAP = default_scores /\
+  forall p limit s,
+    addresses limit (KadStore.emb_store p s) = KadStore.emb_store p (AddrModel.reported limit s).
+Proof. split; [exact KadStore.kad_scores_default | exact KadStore.reported_sim]. Qed.
+Print Assumptions C10_kad_addresses_is_instance.
+
+(* Theorems about one store therefore carry over; for example C10_evict_min and
+   C10_rescore_exact read on the routing table's stores: *)
+Theorem C10_kad_evict_min :
+  forall (p : N) n s a sc v w,
+    (I32_MIN <= sc + AddrModel.S_BONUS <= I32_MAX)%Z -> NoDup (map fst s) ->
+    snd (AddrModel.sinsert n s a sc v) = AddrModel.IEvicted w ->
+    exists m, AddrModel.sfind a s = None /\ (n <= length s)%nat /\ AddrModel.sfind w s = Some m /\
+              (forall b z, In (b, z) s -> (m <= z)%Z) /\
+              AddrModel.sfind w (fst (AddrModel.sinsert n s a sc v)) = None /\
+              length (fst (AddrModel.sinsert n s a sc v)) = length s.
+Proof. exact KadStore.kad_evict_min. Qed.
+Print Assumptions C10_kad_evict_min.
+
+Theorem C10_kad_rescore_exact :
+  forall (p : N) n s a sc v z0,
+    (I32_MIN <= sc + AddrModel.S_BONUS <= I32_MAX)%Z -> AddrModel.sfind a s = Some z0 -> sc <> 0%Z ->
+    snd (AddrModel.sinsert n s a sc v) = AddrModel.IUpdated /\
+    AddrModel.sfind a (fst (AddrModel.sinsert n s a sc v)) = Some sc /\
+    forall b, b <> a -> AddrModel.sfind b (fst (AddrModel.sinsert n s a sc v)) = AddrModel.sfind b s.
+Proof. exact KadStore.kad_rescore_exact. Qed.
+Print Assumptions C10_kad_rescore_exact.
+
 (* ---------- the node's own addresses: the /p2p suffix rule ---------- *)
 
 (* PublicAddresses: after any history every public address is non-empty and ends in
@@ -530,7 +640,7 @@ Example C10_nonvacuous :
             OAdd 1 [a2; [Ip4 Loop 9; Tcp 30; P2p 1]; a1; a2] [a1; a2] [];
             ODialFailure a1 (EDns DeResolveError) None; OAdd 1 [a3] [a3] [a1];
             OHold 2;
-            ODial 1 1 [ENegotiation NeTimeout] [a3] [];
+            ODial 1 1 [ENegotiation NeTimeout] [a3] [] [];
             OAdd 1 [a2] [a2] [];
             ODialAddr a2 (Some (EAddress AeInvalidProtocol)) [];
             ODialAddr [Ip4 Unspec 0; Tcp 30; P2p 0] None [];
@@ -538,7 +648,7 @@ Example C10_nonvacuous :
   get 1 (bk (final c k h)) = Some [(a2, -2147483648); (a3, 100)]%Z /\
   snd (run c k init h) =
     [RListen; RAdd 2 false; RIns (Some Updated); RAdd 1 false; RHold 2;
-     RDial (DTried [(a3, 1%Z)] []); RAdd 1 false; RDialAddr (DAOk TWs 1) false;
+     RDial (DTried [(a3, 1%Z)] [] []); RAdd 1 false; RDialAddr (DAOk TWs 1) false;
      RDialAddr DASelf false; RPub (PubAdded true); RPub PubDifferent] /\
   pubs (final c k h) = [[Dns 5; Tcp 5; P2p 0]] /\
   supported c a2 = true /\ route c a2 = TWs.
